@@ -346,3 +346,47 @@ Qed.
 
 Example ex_protocol : protocol_strings ex_cfg = ["ant/node/0.3/5"; "ant/client/0.3/5"; "/ant/0.3/5"; "ant/0.3/5"].
 Proof. vm_compute. reflexivity. Qed.
+
+(* ================================================================ the lifecycle never changes an installable setting *)
+Lemma set_port_set_port c p q : set_port (set_port c p) q = set_port c q.
+Proof. reflexivity. Qed.
+
+Lemma after_life_shape ls : forall c, after_life c ls = c \/ exists p, after_life c ls = set_port c (Some p).
+Proof.
+  induction ls as [|l r IH]; intros c; [left; reflexivity|]. unfold after_life in *. cbn [fold_left].
+  destruct (IH (life_step c l)) as [E|(p & E)]; rewrite E; destruct l; cbn [life_step]; eauto.
+  right. exists p. apply set_port_set_port.
+Qed.
+
+Lemma lifecycle_lemma c ls :
+  (forall f, f <> "--port" -> ilookup f (upgrade_main (after_life c ls)) = ilookup f (install_main c)) /\
+  (forall env o, let i := install_ctx c env in let u := upgrade_ctx (after_life c ls) o in
+     x_program u = x_program i /\ x_user u = x_user i /\ x_label u = x_label i /\ x_autostart u = x_autostart i /\
+     x_env u = u_env o) /\
+  evm_tokens (c_evm (after_life c ls)) = evm_tokens (c_evm c).
+Proof.
+  destruct (after_life_shape ls c) as [E|(p & E)]; rewrite E.
+  - split; [|split; [intros; cbn; repeat split|reflexivity]].
+    intros f _. symmetry. apply equiv_lemma.
+  - split; [|split; [intros; cbn; repeat split|reflexivity]].
+    intros f NE. rewrite port_lemma. destruct (String.eqb f "--port") eqn:X; [apply String.eqb_eq in X; contradiction|reflexivity].
+Qed.
+
+(* ================================================================ the written sub-command decides the EVM network *)
+Lemma evm_of_sub_items e : evm_of_sub (evm_name e) (evm_items e) = Some e.
+Proof. destruct e; reflexivity. Qed.
+
+Lemma subcommand_wins_lemma c env :
+  exists main, parse_cmd T SUBS (List.length (install_args c)) (install_args c) = Some (main, Some (evm_name (c_evm c), evm_items (c_evm c))) /\
+  resolve_evm (Some (evm_name (c_evm c), evm_items (c_evm c))) env = Some (c_evm c) /\
+  (exists main', parse_cmd T SUBS (List.length (upgrade_args c)) (upgrade_args c) = Some (main', Some (evm_name (c_evm c), evm_items (c_evm c)))).
+Proof.
+  destruct (interp_lemma c) as (A & B). exists (install_main c). split; [exact A|]. split; [apply evm_of_sub_items|].
+  exists (upgrade_main c). exact B.
+Qed.
+
+(* non-vacuity: the environment alone WOULD name another network *)
+Example ex_env_names_other : evm_from_env [("EVM_NETWORK", "arbitrum-sepolia")] = Some EvmSepolia /\
+  resolve_evm (Some (evm_name EvmOne, evm_items EvmOne)) [("EVM_NETWORK", "arbitrum-sepolia")] = Some EvmOne /\
+  resolve_evm None [("RPC_URL", "u"); ("PAYMENT_TOKEN_ADDRESS", "t"); ("DATA_PAYMENTS_ADDRESS", "p")] = Some (EvmCustom "u" "t" "p").
+Proof. repeat split. Qed.
